@@ -512,3 +512,134 @@ def float_oracle(case, res):
     label = "real-valued data (%s%s%s)" % (case["family"], ", object fitted before on other data" if case["prefit"] else "",
                                          ", warm-started" if case["warm_from"] else "")
     return float_run_problem(np.array(case["X"], dtype=float), res["sel"], res["dist"], label)
+
+
+# ----------------------------------------------------------------------------- score thresholds
+def _below(kind, num, den, first, m):
+    """the stopping test of _get_best_new_selection on the integer lattice"""
+    return m * den < num if kind == "absolute" else m * den < num * first
+
+
+def gen_thr_case(rng, quick):
+    nmax = 24 if quick else 48
+    n = rng.randint(5, nmax)
+    d = rng.randint(2, 4)
+    fam = rng.choice(FAMS)
+    X = S.gen_matrix(rng, n, d, fam)
+    sp = rng.choice([0, 0, -8, -14, -20, -20, 12, 3])
+    kind = rng.choice(["relative", "absolute"])
+    if kind == "relative":
+        num, den = rng.choice([(1, 2), (1, 4), (3, 4), (1, 16), (1, 64), (1, 1024), (1, 2 ** 20), (1, 2 ** 40)])
+    else:
+        dmax = max(1, max(sum((a - b) ** 2 for a, b in zip(X[0], r)) for r in X))
+        num, den = rng.choice([(1, 1), (2, 1), (5, 1), (3, 2), (max(1, dmax // 8), 1), (max(1, dmax // 2), 1),
+                               (2 * dmax, 1), (1, 4)])
+    ff = rng.choice([[1, 1], [1, 1], [1, 2], [1, 4], [1, 128]])
+    return dict(X=X, family=fam, sp=sp, thr_type=kind, num=num, den=den, ff=ff, init=rng.randrange(n),
+                k=rng.randint(2, n))
+
+
+def _watch_order(sel):
+    """harness-side wrapper: the order in which _update_post_selection is called"""
+    order = []
+    orig = sel._update_post_selection
+
+    def wrapped(X, y, last_selected):
+        order.append(int(last_selected))
+        return orig(X, y, last_selected)
+
+    sel._update_post_selection = wrapped
+    return order
+
+
+def run_thr(case):
+    import warnings
+    from skmatter.sample_selection import VoronoiFPS, FPS
+    sp = case["sp"]
+    X = np.array(case["X"], dtype=float) * (2.0 ** sp)
+    u2, u1 = 2.0 ** (-2 * sp), 2.0 ** (-sp)
+    thr = case["num"] / case["den"] * (2.0 ** (2 * sp) if case["thr_type"] == "absolute" else 1.0)
+    kw = dict(n_to_select=case["k"], initialize=case["init"], score_threshold=thr, score_threshold_type=case["thr_type"])
+    rec = {}
+    try:
+        sel = VoronoiFPS(full_fraction=case["ff"][0] / case["ff"][1], **kw)
+        order = _watch_order(sel)
+        with warnings.catch_warnings(record=True) as w:
+            warnings.simplefilter("always")
+            sel.fit(X)
+        rec["stopped"] = any("Score threshold" in str(x.message) for x in w)
+        ref = FPS(**kw)
+        with warnings.catch_warnings(record=True) as w2:
+            warnings.simplefilter("always")
+            ref.fit(X)
+        rec["ref_stopped"] = any("Score threshold" in str(x.message) for x in w2)
+    except Exception as e:  # noqa
+        return dict(error=S.err_class(e), error_msg=str(e)[:160])
+    k = int(sel.n_selected_)
+    rec.update(error=None, k=k, order=order, ref_k=int(ref.n_selected_))
+    try:
+        rec.update(
+            xsel=C.as_int_matrix(np.asarray(sel.X_selected_, float)[:k] * u1, "X_selected_"),
+            norms=_ints(sel.norms_, u2, "norms_"), haus=_ints(sel.hausdorff_, u2, "hausdorff_"),
+            hsel=_ints(sel.hausdorff_at_select_, u2, "hausdorff_at_select_"),
+            vloc=[int(v) for v in sel.vlocation_of_idx],
+            dsl=_ints(np.asarray(sel.dSL_, float) * 4.0, u2, "dSL_"), new=_ints(sel.new_dist_, u2, "new_dist_"),
+            dist=_ints(sel.get_distance(), u2, "get_distance"),
+            seld=[] if rec["stopped"] else _ints(sel.get_select_distance(), u2, "get_select_distance"),
+            ref_xsel=C.as_int_matrix(np.asarray(ref.X_selected_, float)[:rec["ref_k"]] * u1, "FPS.X_selected_"),
+            ref_dist=_ints(ref.get_distance(), u2, "FPS.get_distance"))
+    except C.InexactOutput as e:
+        rec["inexact"] = str(e)
+        rec["dist_f"] = [float(x) * u2 for x in np.asarray(sel.get_distance(), float)]
+    return rec
+
+
+def thr_coq(case, res):
+    if res.get("error") or "inexact" in res:
+        return "false"
+    X = case["X"]
+    t = "(%s %s %s)" % ("AbsThr" if case["thr_type"] == "absolute" else "RelThr", C.Zl(case["num"]), C.Zl(case["den"]))
+    br = "(br_fraction %d%%nat %s %s)" % (len(X), C.Zl(case["ff"][0]), C.Zl(case["ff"][1]))
+    return "thr_case_ok %s %s %d%%nat %s %d%%nat %s (mk_otrace %s %s %s %s %s %s %s %s %s)" % (
+        C.zmat(X), br, case["init"], t, case["k"], "true" if res["stopped"] else "false",
+        C.natlist(res["order"]), C.zmat(res["xsel"]), C.zlist(res["norms"]), _extl(res["haus"]), _extl(res["hsel"]),
+        C.natlist(res["vloc"]), C.zlist(res["dsl"]), _extl(res["new"]), _extl(res["seld"]))
+
+
+def thr_oracle(case, res):
+    """VoronoiFPS with a score threshold: up to the stop a plain-FPS run with the true table, stopping
+    exactly where the threshold says, and equal to plain FPS given the SAME threshold"""
+    label = "score_threshold=%s/%s (%s%s), full_fraction=%s/%s" % (
+        case["num"], case["den"], case["thr_type"], ", data scaled by 2^%d" % case["sp"] if case["sp"] else "",
+        case["ff"][0], case["ff"][1])
+    if res.get("error"):
+        return "%s: fit raised %s: %s" % (label, res["error"], res.get("error_msg"))
+    X, order, k = case["X"], res["order"], case["k"]
+    n = len(X)
+    if res["k"] != len(order):
+        return "%s: n_selected_ = %d after %d selections" % (label, res["k"], len(order))
+    if "inexact" in res:
+        return float_run_problem(np.array(X, float), order, res["dist_f"], label)
+    msg = fps_run_problem(X, order, res["dist"], label)
+    if msg:
+        return msg
+    D = [[sum((a - b) ** 2 for a, b in zip(X[i], X[j])) for j in range(n)] for i in range(n)]
+    first = None
+    for t in range(1, min(len(order) + 1, k)):
+        mind = [min(D[j][i] for i in order[:t]) for j in range(n)]
+        m = max(mind[j] for j in range(n) if j not in order[:t])
+        if first is None:
+            first = m
+        low = _below(case["thr_type"], case["num"], case["den"], first, m)
+        if t < len(order) and low:
+            return "%s: selection %d made at score %s although the threshold had been reached" % (label, t, m)
+        if t == len(order) and not low:
+            return "%s: stopped after %d of %d selections although the best score %s is not below the threshold" % (
+                label, len(order), k, m)
+    if res["stopped"] != (len(order) < k):
+        return "%s: stop warning %s with %d of %d selections" % (label, res["stopped"], len(order), k)
+    if (res["k"], res["xsel"], res["dist"], res["stopped"]) != (res["ref_k"], res["ref_xsel"], res["ref_dist"], res["ref_stopped"]):
+        return "%s: differs from plain FPS with the same threshold: %d selections (stopped=%s) vs %d (stopped=%s)%s" % (
+            label, res["k"], res["stopped"], res["ref_k"], res["ref_stopped"],
+            "" if res["dist"] == res["ref_dist"] else ", distance tables differ")
+    return None
